@@ -282,6 +282,15 @@ impl Engine {
         Some(match self.db.get(sid)? { AnyMarket::M64(m) => digest64(m), AnyMarket::M128(m) => digest128(m) })
     }
 
+    /// run `op` on a COPY of the market with the swap virtual inventory removed (oracle probe for the
+    /// "worse of the two impacts" rule); the session itself is untouched
+    pub fn probe_without_vi(&self, sid: &str, op: &str, args: &[&str]) -> Option<String> {
+        match self.db.get(sid)? {
+            AnyMarket::M64(m) => { let mut c = (**m).clone(); c.vi_swaps = None; market_op64(&mut c, op, args) }
+            AnyMarket::M128(m) => { let mut c = (**m).clone(); c.vi_swaps = None; market_op128(&mut c, op, args) }
+        }
+    }
+
     /// Execute one request line (`mkt <op> <sid> …`); returns the canonical response.
     pub fn exec(&mut self, req: &str) -> String {
         let t: Vec<&str> = req.split(' ').collect();
